@@ -30,7 +30,35 @@ FAMILIES = {
 
 NOT_YET = {}
 
+KV_NOTE = ("Row-level model Kv.v (every KV/xattr/subdoc entry point, statement by statement, incl. the redundant tombstone column) "
+           "lifted to multi-collection histories in Store.v. Assumes each call is one atomic step (bucket.mutex + one SQLite transaction); "
+           "SQLite, database/sql, encoding/json and the feed goroutines are modelled, not verified. wf_op excludes WriteCas(Append,nil) and "
+           "WithMeta writes asking for CAS 0. Trusted: Coq kernel + vm_compute, the Go harness and its term emitter.")
+KV_ASSUME = [
+    "each client call is one atomic step of the model (bucket.mutex + one SQLite transaction); concurrency is the subject of C03",
+    "SQLite statement semantics (upsert, iif, ||, NULL handling) are transcribed by hand into Kv.v and watched by the correspondence",
+    "histories are well-formed: no WriteCas(Append) with a nil value, no WithMeta write that asks for CAS 0",
+    "the harness's scripted HLC clock (VerifSetClock) stands for time.Now(); relative expiries are compared only when the wall-clock second did not change during the call",
+]
+
+
+def _kv(pid, text):
+    return {
+        "families": [{"family": "kv", "chk": "kv_chk_" + pid}],
+        "level_text": text,
+        "level_note": KV_NOTE,
+        "assumptions": KV_ASSUME,
+    }
+
+
 PROPS = {
+    "C01": _kv("C01", "Full proof on the model: for every history (any collections, keys, entry points, arguments, clocks, size limits, purges, drops, expiry firings) every read answers from the current document, every failed/refused call leaves the document's complete view unchanged, and every successful write is what the next read-back shows (C01_holds, by a per-call theorem over all entry points and document states lifted by induction over histories). Tied to the code by differential execution of generated histories with full read-back after every step."),
+    "C02": _kv("C02", "Sequential part proved in full on the model: a conditional write (every entry point that carries an expected CAS) that succeeds had an expected CAS equal to the document's current CAS (0 = no document; for WriteCas no live document), and one that fails changes nothing (C02_holds, all histories). The two-writer race is covered by the concurrency model of C03 (scheduled executions through the subdoc window)."),
+    "C05": _kv("C05", "Full proof on the model: in every reachable store the tombstone column equals 'value IS NULL' (C05_flag_iff_nobody), and every history is accepted by the checker: deletion opcode iff no body, Delete/Remove keep exactly the system xattrs and clear the expiry, a body write onto a body-less key leaves only the supplied xattrs (C05_holds)."),
+    "C06": _kv("C06", "Full proof on the model: for every history an insert-style write (Add, AddRaw, WriteCas AddOnly / cas 0, WriteResurrectionWithXattrs) succeeds only on a key without a body and a refusal happens only on a key with a body and leaves it untouched; WriteWithXattrs cas 0 succeeds only on an absent key (C06_holds)."),
+    "C07": _kv("C07", "Full proof on the model: an xattr-only write changes exactly the named xattrs and keeps body, datatype and (unless given) expiry; a body-only write to a live document keeps its xattrs; a failed call changes nothing (C07_holds; frame lemmas over apply_xattrs / xattrs_remove for all xattr maps and name lists). Macro expansion values are compared exactly by the correspondence (CAS string and CRC32c computed in Coq)."),
+    "C08": _kv("C08", "Sequential part proved in full on the model: every successful CAS-stamping call posts exactly one event equal to the rendering of the document as stored (key, opcode, body, xattrs, datatype bits, CAS, expiry, revision), every failed/refused call and every touch posts none (C08_holds, all histories). CAS order of delivery under concurrent writers is part of the interleaving model (partial)."),
+    "C17": _kv("C17", "Full proof on the model: every successful mutation through any entry point raises the key's revision number by exactly one (1 on creation or re-creation after purge), failed calls leave it, and live events carry the stored number (C17_holds, all histories)."),
     "C04": {
         "families": [{"family": "c04"}],
         "level_text": "Full proof on the model: for every list of clock readings, buckets, failed calls, closes, restarts and reopens the issued CAS values are strictly increasing process-wide and per bucket across restarts (C04_holds, by invariant over all operation lists; uint64 no-wrap side condition proved). The model is tied to hlc.go/collection.go by exact comparison of every CAS the implementation stamps under scripted clocks.",
